@@ -293,7 +293,18 @@ func evalHistory(h history) lib.Outcome {
 					mu.Unlock()
 				}()
 			}
-			wg.Wait()
+			wgDone := make(chan struct{})
+			go func() { wg.Wait(); close(wgDone) }()
+			select {
+			case <-wgDone:
+			case <-time.After(60 * time.Second):
+				dump := s.DumpGoroutines()
+				if len(dump) > 60000 {
+					dump = dump[len(dump)-60000:]
+				}
+				o.Observed = string(dump)
+				return fail("step %d: a burst login neither succeeded nor failed within 60 s (server goroutine dump attached)", i)
+			}
 			free := h.Max - len(open)
 			open = append(open, won...)
 			lifetime += len(won)
